@@ -22,6 +22,34 @@ class Unbound(Exception):
     """sidecar contract refers to a name the current source does not define"""
 
 
+class ForkRequest(Exception):
+    """bounded mode: a concrete truth value is needed for a symbolic condition that the path condition does not
+    decide; the enclosing statement is re-executed under both outcomes"""
+
+    def __init__(self, cond):
+        Exception.__init__(self, "fork")
+        self.cond = cond
+
+
+class PyRaise(Exception):
+    """a modelled Python exception raised inside an expression (TypeError on subscripting a number, ImportError)"""
+
+    def __init__(self, name):
+        Exception.__init__(self, name)
+        self.name = name
+
+
+class FuncRef(object):
+    """function of another repository module bound by an import statement"""
+
+    def __init__(self, rel, name):
+        self.rel, self.name = rel, name
+
+
+CLASS_HOME = {'SpikeTrain': 'pyspike/SpikeTrain.py', 'PieceWiseConstFunc': 'pyspike/PieceWiseConstFunc.py',
+              'PieceWiseLinFunc': 'pyspike/PieceWiseLinFunc.py', 'DiscreteFunc': 'pyspike/DiscreteFunc.py'}
+
+
 class Obl(object):
     __slots__ = ("name", "hyp", "goal", "kind", "meta")
 
@@ -121,6 +149,7 @@ class Engine(object):
         self.max_paths = max_paths
         self.cur_func = None
         self.classes = {}                  # class name -> {method name: FunctionDef}
+        self.config = 'fallback'           # 'compiled': imports of the C extension modules succeed (extracted text)
         self._solver = None
         self.loop_cover = {}               # loop key -> reached
 
@@ -166,6 +195,8 @@ class Engine(object):
             return st.vars[e.id]
         if e.id in ('True', 'False', 'None'):
             return {'True': True, 'False': False, 'None': None}[e.id]
+        if e.id in ('float', 'int', 'str', 'bool', 'list', 'tuple'):
+            return ('__name__', e.id)
         raise Unsupported("unbound name %s at line %d" % (e.id, e.lineno))
 
     def ev_UnaryOp(self, e, st, pc):
@@ -280,6 +311,40 @@ class Engine(object):
         b = self.ev(e.orelse, st, pc.guarded(bnot(c)))
         return ite(c, a, b)
 
+    def ev_ListComp(self, e, st, pc):
+        if self.mode != 'B':
+            raise Unsupported("list comprehension in P mode")
+        out = []
+        saved = dict(st.vars)
+
+        def rec(gi):
+            if gi == len(e.generators):
+                out.append(self.ev(e.elt, st, pc))
+                return
+            g = e.generators[gi]
+            seq = self.ev(g.iter, st, pc)
+            if isinstance(seq, (ArrV, LazyArr)):
+                if not isinstance(seq.n, int):
+                    raise Unsupported("comprehension over symbolic length")
+                seq = [st.elem(seq, k) for k in range(seq.n)]
+            if not isinstance(seq, (list, tuple)):
+                raise Unsupported("comprehension over %r" % type(seq).__name__)
+            for item in seq:
+                self.assign(g.target, item, st, pc)
+                ok = True
+                for cnd in g.ifs:
+                    if not self.demand_bool(self.truth(self.ev(cnd, st, pc), st, pc, e), pc):
+                        ok = False
+                        break
+                if ok:
+                    rec(gi + 1)
+        rec(0)
+        for k in list(st.vars):
+            if k not in saved:
+                del st.vars[k]
+        st.vars.update(saved)
+        return out
+
     def ev_List(self, e, st, pc):
         return [self.ev(x, st, pc) for x in e.elts]
 
@@ -335,6 +400,8 @@ class Engine(object):
                 self.oblige("bounds:%s@%d" % (ast.unparse(e)[:40], e.lineno), pc, False)
                 raise PathAbort()
             return v[i]
+        if isinstance(v, (int, Fraction, NF)) or is_z3(v):
+            raise PyRaise('TypeError')
         if not isinstance(v, (ArrV, LazyArr)):
             raise Unsupported("subscript of %r at line %d" % (type(v).__name__, e.lineno))
         if isinstance(e.slice, ast.Slice):
@@ -366,6 +433,8 @@ class Engine(object):
     # -- calls -------------------------------------------------------------------------------
     def ev_Call(self, e, st, pc):
         fn = ast.unparse(e.func)
+        if fn == 'pyspike.NoCythonWarn':
+            return None
         if fn in self.call_models:
             args = [self.ev(a, st, pc) for a in e.args]
             kw = {k.arg: self.ev(k.value, st, pc) for k in e.keywords}
@@ -387,6 +456,19 @@ class Engine(object):
                 if key in self.call_models:
                     return self.call_models[key](self, [rec] + args, kw, st, pc, e)
                 return self.inline_merge(cls[mname], [rec] + args, kw, st, pc, e)
+        if isinstance(e.func, ast.Attribute) and e.func.attr in ('sort', 'copy', 'tolist'):
+            base = self.ev(e.func.value, st, pc)
+            if isinstance(base, (ArrV, LazyArr)):
+                return self.array_method(e.func.attr, base, e.func.value, st, pc, e)
+        if isinstance(e.func, ast.Name) and fn in CLASS_HOME and fn not in st.vars:
+            args = [self.ev(a, st, pc) for a in e.args]
+            kw = {k.arg: self.ev(k.value, st, pc) for k in e.keywords}
+            return self.construct(fn, args, kw, st, pc, e)
+        if isinstance(e.func, ast.Name) and isinstance(st.vars.get(fn), FuncRef):
+            args = [self.ev(a, st, pc) for a in e.args]
+            kw = {k.arg: self.ev(k.value, st, pc) for k in e.keywords}
+            paths = self.callee_paths(st.vars[fn], args, kw, st, pc, e)
+            return self.adopt_single(paths, st, pc, fn)
         if isinstance(e.func, ast.Name):
             target = st.vars.get(fn)
             if isinstance(target, Closure):
@@ -397,6 +479,64 @@ class Engine(object):
                 kw = {k.arg: self.ev(k.value, st, pc) for k in e.keywords}
                 return self.inline_merge(self.funcs[fn], args, kw, st, pc, e)
         raise Unsupported("call to %s at line %d" % (fn, e.lineno))
+
+    def adopt_single(self, paths, st, pc, what):
+        """expression-level call of a callee with heap effects: allowed when it has exactly one path"""
+        if len(paths) != 1:
+            raise Unsupported("callee %s forks inside an expression (%d paths)" % (what, len(paths)))
+        st2, pc2, rv = paths[0]
+        st.heap.clear()
+        st.heap.update(st2.heap)
+        for h in pc2.facts[len(pc.facts):]:
+            pc.facts.append(h)
+        pc.assumed |= pc2.assumed
+        return rv
+
+    def construct(self, cname, args, kw, st, pc, node):
+        from . import source
+        mod = source.module(CLASS_HOME[cname])
+        init = mod.func('__init__', cname)
+        rec = st.new_rec(cname, {'__local__': True})
+        saved = (self.funcs, self.classes, self.cur_func)
+        self.funcs = mod.funcs
+        self.classes = {cn: {m.name: m for m in cd.body if hasattr(m, 'name')} for cn, cd in mod.classes.items()}
+        try:
+            paths = self.callee_paths(init, [rec] + args, kw, st, pc, node)
+        finally:
+            self.funcs, self.classes, self.cur_func = saved
+        self.adopt_single(paths, st, pc, cname + '.__init__')
+        return rec
+
+    def array_method(self, name, a, target_node, st, pc, node):
+        if name == 'tolist':
+            if not isinstance(a.n, int):
+                raise Unsupported("tolist of symbolic length")
+            return [st.elem(a, k) for k in range(a.n)]
+        if name == 'copy':
+            return self.copy_array(a, st, pc, node)
+        if name == 'sort':
+            vals = self.sorted_values([st.elem(a, k) for k in range(a.n)], pc, node, unique=False)
+            self.store_slice(a, 0, a.n, 1, vals, st, pc, node)
+            return None
+        raise Unsupported(name)
+
+    def sorted_values(self, vals, pc, node, unique):
+        """insertion sort by demanded comparisons (bounded mode): the ordering is decided by the path condition or forked"""
+        out = []
+        for v in vals:
+            v = self.need_finite(v, pc, 'sort', node)
+            pos = len(out)
+            dup = False
+            for k, w in enumerate(out):
+                if unique and self.demand_bool(cmp('==', v, w), pc):
+                    dup = True
+                    break
+                if self.demand_bool(cmp('<', v, w), pc):
+                    pos = k
+                    break
+            if not dup:
+                out.insert(pos, v)
+        return out
 
     def bind_args(self, fdef, args, kw, st, pc):
         names = [a.arg for a in fdef.args.args]
@@ -560,7 +700,11 @@ class Engine(object):
         if isinstance(a, (list, tuple)):
             if self.mode != 'B':
                 raise Unsupported("np.array(list) in P mode")
+            if any(isinstance(x, (list, tuple, ArrV)) for x in a):
+                raise Unsupported("np.array of nested sequence")
             return st.alloc(list(a), len(a), "array@%d" % node.lineno)
+        if isinstance(a, LazyArr):
+            return st.alloc([a.fn(k) for k in range(a.n)], a.n, "array@%d" % node.lineno)
         return self.copy_array(a, st, pc, node)
 
     def copy_array(self, a, st, pc, node):
@@ -573,6 +717,49 @@ class Engine(object):
             raise Unsupported("copy of possibly non-finite array in P mode")
         pc.assume(z3.ForAll([k], z3.Implies(z3.And(0 <= k, k < toI(a.n)), z3.Select(new, k) == t)))
         return st.alloc(new, a.n, "copy@%d" % node.lineno)
+
+    def _elems(self, a, st):
+        if isinstance(a, (list, tuple)):
+            return list(a)
+        if isinstance(a, (ArrV, LazyArr)):
+            if not isinstance(a.n, int):
+                raise Unsupported("symbolic length")
+            return [st.elem(a, k) for k in range(a.n)]
+        return [a]
+
+    def bi_np_unique(self, args, kw, st, pc, node):
+        vals = self.sorted_values(self._elems(args[0], st), pc, node, unique=True)
+        return st.alloc(vals, len(vals), "unique@%d" % node.lineno)
+
+    def bi_np_sort(self, args, kw, st, pc, node):
+        vals = self.sorted_values(self._elems(args[0], st), pc, node, unique=False)
+        return st.alloc(vals, len(vals), "sort@%d" % node.lineno)
+
+    def bi_np_concatenate(self, args, kw, st, pc, node):
+        vals = []
+        for a in args[0]:
+            vals += self._elems(a, st)
+        return st.alloc(vals, len(vals), "concatenate@%d" % node.lineno)
+
+    def bi_np_append(self, args, kw, st, pc, node):
+        vals = self._elems(args[0], st) + self._elems(args[1], st)
+        return st.alloc(vals, len(vals), "append@%d" % node.lineno)
+
+    def bi_np_insert(self, args, kw, st, pc, node):
+        base, idx, new = self._elems(args[0], st), args[1], self._elems(args[2], st)
+        if not isinstance(idx, int):
+            raise Unsupported("np.insert at symbolic position")
+        vals = base[:idx] + new + base[idx:]
+        return st.alloc(vals, len(vals), "insert@%d" % node.lineno)
+
+    def bi_np_sqrt(self, args, kw, st, pc, node):
+        x = self.need_finite(args[0], pc, 'sqrt', node)
+        self.oblige("sqrt-of-nonnegative@%d" % node.lineno, pc, cmp('>=', x, 0))
+        if isinstance(x, (int, Fraction)) and x == 0:
+            return 0
+        r = fresh('sqrt', R)
+        pc.assume(z3.And(r >= 0, r * r == toR(x)))      # assumed contract of np.sqrt over the reals
+        return r
 
     def bi_np_searchsorted(self, args, kw, st, pc, node):
         """assumed numpy contract: for sorted a, side='left': #elements < v ; side='right': #elements <= v"""
@@ -766,7 +953,30 @@ class Engine(object):
         m = getattr(self, 'st_' + type(s).__name__, None)
         if m is None:
             raise Unsupported("statement %s at line %d" % (type(s).__name__, s.lineno))
-        return m(s, st, pc)
+        if self.mode != 'B':
+            return m(s, st, pc)
+        st0, pc0 = st.copy(), pc.copy()
+        try:
+            return m(s, st, pc)
+        except ForkRequest as fr:
+            out = []
+            self.nforks += 1
+            for c in (fr.cond, bnot(fr.cond)):
+                p = pc0.plus(c)
+                if self.feasible(p):
+                    out += self.exec_stmt(s, st0.copy(), p)
+            return out
+
+    def demand_bool(self, c, pc):
+        """concrete truth value of a condition in bounded mode (decided by the path condition, or fork)"""
+        if isinstance(c, bool):
+            return c
+        from .harness import entailed
+        if entailed(pc.hyp(), c, 2000):
+            return True
+        if entailed(pc.hyp(), bnot(c), 2000):
+            return False
+        raise ForkRequest(c)
 
     def st_Expr(self, s, st, pc):
         if isinstance(s.value, ast.Constant):
@@ -779,7 +989,33 @@ class Engine(object):
 
     def st_Import(self, s, st, pc):
         return [(st, pc, None)]
-    st_ImportFrom = st_Import
+
+    def st_ImportFrom(self, s, st, pc):
+        mod = s.module or ''
+        if 'cython.cython_' in mod or mod.startswith('cython_'):
+            if self.config != 'compiled':
+                raise PyRaise('ImportError')
+            rel = 'pyspike/cython/%s.pyx' % mod.split('.')[-1]
+        elif mod.endswith('python_backend'):
+            rel = 'pyspike/cython/%s.py' % mod.split('.')[-1]
+        else:
+            return [(st, pc, None)]
+        for a in s.names:
+            st.vars[a.asname or a.name] = FuncRef(rel, a.name)
+        return [(st, pc, None)]
+
+    def st_Try(self, s, st, pc):
+        if s.finalbody or s.orelse:
+            raise Unsupported("try/finally/else")
+        st0, pc0 = st.copy(), pc.copy()
+        try:
+            return self.exec_block(s.body, st, pc)
+        except PyRaise as ex:
+            for h in s.handlers:
+                tname = ast.unparse(h.type) if h.type is not None else None
+                if tname is None or tname == ex.name or tname == 'Exception':
+                    return self.exec_block(h.body, st0, pc0)
+            raise
 
     def st_FunctionDef(self, s, st, pc):
         st.vars[s.name] = Closure(s, dict(st.vars))
@@ -803,7 +1039,60 @@ class Engine(object):
             sol.add(v != k)
         raise Unsupported("symbolic integer with more than %d feasible values" % limit)
 
+    def callee_paths(self, target, args, kw, st, pc, node):
+        """execute a callee that may fork and may allocate: -> [(caller state, pc, return value)]"""
+        from . import source
+        if isinstance(target, FuncRef):
+            mod = source.module(target.rel)
+            fdef = mod.func(target.name)
+            funcs, classes = mod.funcs, {cn: {m.name: m for m in cd.body if hasattr(m, 'name')} for cn, cd in mod.classes.items()}
+        else:
+            fdef, funcs, classes = target, self.funcs, self.classes
+        key = "%s:%s" % (getattr(target, 'rel', ''), fdef.name)
+        if fdef.name in self.call_models:
+            return [(st, pc, self.call_models[fdef.name](self, args, kw, st, pc, node))]
+        vs = self.bind_args(fdef, args, kw, st, pc)
+        callee = State(vs, dict(st.heap))
+        saved = (self.funcs, self.classes, self.cur_func)
+        self.funcs, self.classes, self.cur_func = funcs, classes, fdef.name
+        try:
+            paths = self.exec_block(fdef.body, callee, pc.copy())
+        finally:
+            self.funcs, self.classes, self.cur_func = saved
+        out = []
+        for (s2, pc2, o2) in paths:
+            if o2 is None:
+                o2 = ('ret', None)
+            if o2[0] == 'raise':
+                self.oblige("callee-raises:%s.%s@%d" % (fdef.name, o2[1], node.lineno), pc2, False)
+                continue
+            if o2[0] != 'ret':
+                raise Unsupported("callee %s ends with %s" % (fdef.name, o2[0]))
+            out.append((State(dict(st.vars), s2.heap), pc2, o2[1]))
+        return out
+
+    def stmt_call_target(self, value, st):
+        """the FuncRef a statement-level call goes to, if any"""
+        if isinstance(value, ast.Call) and isinstance(value.func, ast.Name):
+            nm = value.func.id
+            if isinstance(st.vars.get(nm), FuncRef):
+                return st.vars[nm]
+            if nm in self.funcs and nm not in st.vars and nm not in self.call_models and self.mode == 'B' \
+                    and getattr(self, 'bi_' + nm, None) is None:
+                return self.funcs[nm]
+        return None
+
     def st_Assign(self, s, st, pc):
+        tgt = self.stmt_call_target(s.value, st)
+        if tgt is not None:
+            args = [self.ev(a, st, pc) for a in s.value.args]
+            kw = {k.arg: self.ev(k.value, st, pc) for k in s.value.keywords}
+            out = []
+            for (st2, pc2, rv) in self.callee_paths(tgt, args, kw, st, pc, s):
+                for t in s.targets:
+                    self.assign(t, rv, st2, pc2)
+                out.append((st2, pc2, None))
+            return out
         v = self.ev(s.value, st, pc)
         if self.mode == 'B' and (is_int_sorted(v) or (isinstance(v, tuple) and any(is_int_sorted(x) for x in v))):
             items = list(v) if isinstance(v, tuple) else [v]
@@ -863,6 +1152,11 @@ class Engine(object):
         return [(st, pc, ('raise', exc.split('(')[0], s.lineno))]
 
     def st_Return(self, s, st, pc):
+        tgt = self.stmt_call_target(s.value, st) if s.value is not None else None
+        if tgt is not None:
+            args = [self.ev(a, st, pc) for a in s.value.args]
+            kw = {k.arg: self.ev(k.value, st, pc) for k in s.value.keywords}
+            return [(st2, pc2, ('ret', rv)) for (st2, pc2, rv) in self.callee_paths(tgt, args, kw, st, pc, s)]
         v = self.ev(s.value, st, pc) if s.value is not None else None
         return [(st, pc, ('ret', v))]
 
